@@ -1,12 +1,14 @@
 ----------------------------- MODULE StylesTrace -----------------------------
 (* Recorded operations on the real TableStyle / BorderStyle classes and recorded renders of components, checked
    against Styles.  Event (every event carries every field):
-     op      "make" | "custom" | "render"
-     kind, s, field, value        arguments of make / custom
+     op      "make" | "custom" | "align" | "render"
+     kind, s, field, value        arguments of make / custom (string-valued attribute of the style or its border_style)
+     field, col, a, seq           align: field = "set_column_alignment" (col, a) | "column_alignments" (seq) |
+                                  "default_column_alignment" (a)
      comp, inst, io               arguments of render (io = [utf8, ansi, verb])
-     ids     after make/custom: for every existing style object, the identity of the text a fixed table shows
+     ids     after make/custom/align: for every existing style object, the identity of the text a fixed table shows
              when rendered with it now (equal numbers <=> equal text, interned by the driver)
-     fields  after make/custom: the attribute values read from every style object (A-layer comparison only)
+     fields  after make/custom/align: the attribute values read from every style object (A-layer comparison only)
      id      for render: identity of the rendered text
      ref     for render: identity of the text that a fresh process shows for an equally built component on an
              equally capable I/O (rendered by the driver in a forked child that has rendered nothing before)
@@ -43,6 +45,10 @@ TCustom == /\ l <= Len(T) /\ Ev.op = "custom" /\ Adv
            /\ Customise(Ev.s, Ev.field, Ev.value)
            /\ StyleClauses(Ev)
 
+TAlign == /\ l <= Len(T) /\ Ev.op = "align" /\ Adv
+          /\ Align(Ev.s, Ev.field, Ev.col, Ev.a, Ev.seq)
+          /\ StyleClauses(Ev)
+
 TRender ==
   /\ l <= Len(T) /\ Ev.op = "render" /\ Adv
   /\ Render(Ev.comp, Ev.inst, Ev.io)
@@ -55,7 +61,7 @@ TRender ==
 
 TDone == /\ l = Len(T) + 1 /\ l' = l + 1 /\ tid' = tid /\ UNCHANGED <<vars, pts, rpts>> /\ Accept(tid)
 
-TNext == TMake \/ TCustom \/ TRender \/ TDone
+TNext == TMake \/ TCustom \/ TAlign \/ TRender \/ TDone
 TSpec == TInit /\ [][TNext]_tvars
 
 TOwn == {"padding_char", "cell_format"}
